@@ -75,3 +75,16 @@ claim("C01",
       "NOT proved: the end-to-end sentence of C01 (semantic preservation of the whole compiler).",
       "Oracle: SQL's logical clause order. HashSet<String>, strum AsRefStr, contains_any, the filter/fold in can_materialize and "
       "infer_complexity_expr are trusted by contract; split_off_back's loop and anchor_split are not under contract.")
+
+prop("C04", ["window_frame", "split_order"],
+     not_covered="that partition/sort reach Compute.window (lowering), row-count preservation, create_filter_by_row_number")
+claim("C04",
+      "PARTIAL. Proved on the real code, for all inputs: the window transform maps expanding / rolling:n / rows / range to exactly the documented "
+      "(kind, start, end) with rolling:n = rows:(1-n)..0 and no overflow (WF1a-e); bound sign -> n PRECEDING / CURRENT ROW / n FOLLOWING, open "
+      "bounds -> UNBOUNDED (WF2*); the frame clause is omitted only where SQL's implicit frame is the requested one (WF3a) and otherwise carries "
+      "the requested bounds (WF3b); the Flattener applies a window's frame to its inner pipeline only - upstream transforms are folded with the "
+      "frame in effect on entry (FL1-3); a windowed compute has complexity Windowed and is never inlined where a requirement allows less, a filter "
+      "never shares a SELECT with a preceding compute unless it is a HAVING, and reorder() never hoists a windowed compute over a take "
+      "(split_order IC1, CM1, SO1c, RO1). NOT proved: partition/sort wiring through lowering, row-count preservation.",
+      "Flattener::fold_expr is external (ghost log of (expression, frame in effect)); slices drop the rest of resolve_special_func / "
+      "translate_windowed; unpack_as_int_literal and sqlparser value construction are trusted by contract.")
